@@ -1297,6 +1297,111 @@ func (w *worker) mutants(r *row, h *frame.Header, x []byte, offs []int, rng *ran
 }
 
 // randomInputs decodes arbitrary bytes for every opcode and version: safety only.
+func (w *worker) countBoundaries(ver string) {
+	v := versions[ver]
+	ref := frame.NewRawCodec()
+	for _, n := range []int{32767, 32768, 40000, 65535} {
+		vals := make([]*primitive.Value, n)
+		for i := range vals {
+			vals[i] = primitive.NewValue([]byte{byte('a' + i%26)})
+		}
+		id := []byte("0123456789abcdef")
+		msgs := map[string]message.Message{
+			"QUERY":   &message.Query{Query: "INSERT INTO ks.t (k) VALUES (?)", Options: &message.QueryOptions{Consistency: primitive.ConsistencyLevelLocalQuorum, PositionalValues: vals}},
+			"EXECUTE": &message.Execute{QueryId: id, ResultMetadataId: id, Options: &message.QueryOptions{Consistency: primitive.ConsistencyLevelLocalQuorum, PositionalValues: vals}},
+			"BATCH": &message.Batch{Type: primitive.BatchTypeUnlogged, Consistency: primitive.ConsistencyLevelLocalQuorum, Children: []*message.BatchChild{
+				{Query: "INSERT INTO ks.t (k) VALUES (?)", Values: vals},
+				{Id: id, Values: vals[:2]},
+				{Query: "DELETE FROM ks.t WHERE k = 1"}}},
+		}
+		for _, op := range []string{"QUERY", "EXECUTE", "BATCH"} {
+			r := &row{Op: op, Ver: ver, Mal: fmt.Sprintf("value-count-%d", n), Cls: "valid"}
+			h := header(r)
+			ov := w.ov(r)
+			var buf bytes.Buffer
+			if err := ref.EncodeBody(h, &frame.Body{Message: msgs[op]}, &buf); err != nil {
+				w.res.machinery(fmt.Sprintf("reference codec cannot encode %s with %d values: %v", op, n, err))
+				continue
+			}
+			x := buf.Bytes()
+			ov.Bodies++
+			d := decodeReader(codecs.CustomRawCodec, h, x)
+			ov.Decodes++
+			stage := "full body"
+			if d.panicked != "" {
+				w.res.report("panic", r, "", 0, stage, x[:64], d.panicked, nil)
+				continue
+			}
+			if d.err != nil {
+				w.res.report("decode", r, "", 0, stage, x[:64], "valid body rejected: "+d.err.Error(), nil)
+				continue
+			}
+			diff := ""
+			setCons := func(c primitive.ConsistencyLevel) {}
+			switch m := d.msg.(type) {
+			case *codecs.PartialQuery:
+				if m.Query != msgs[op].(*message.Query).Query || m.Consistency != primitive.ConsistencyLevelLocalQuorum {
+					diff = fmt.Sprintf("query %q consistency %v", m.Query, m.Consistency)
+				}
+				setCons = func(c primitive.ConsistencyLevel) {
+					m.Consistency = c
+					msgs[op].(*message.Query).Options.Consistency = c
+				}
+			case *codecs.PartialExecute:
+				if !bytes.Equal(m.QueryId, id) || m.Consistency != primitive.ConsistencyLevelLocalQuorum {
+					diff = fmt.Sprintf("id %x consistency %v", m.QueryId, m.Consistency)
+				}
+				setCons = func(c primitive.ConsistencyLevel) {
+					m.Consistency = c
+					msgs[op].(*message.Execute).Options.Consistency = c
+				}
+			case *codecs.PartialBatch:
+				rb := msgs[op].(*message.Batch)
+				if m.Consistency != primitive.ConsistencyLevelLocalQuorum || m.Type != rb.Type || len(m.Queries) != len(rb.Children) {
+					diff = fmt.Sprintf("consistency %v type %v children %d", m.Consistency, m.Type, len(m.Queries))
+				} else {
+					for i, q := range m.Queries {
+						switch x := q.QueryOrId.(type) {
+						case string:
+							if x != rb.Children[i].Query {
+								diff = fmt.Sprintf("child %d: query %q", i, x)
+							}
+						case []byte:
+							if !bytes.Equal(x, rb.Children[i].Id) {
+								diff = fmt.Sprintf("child %d: id %x", i, x)
+							}
+						}
+					}
+				}
+				setCons = func(c primitive.ConsistencyLevel) { m.Consistency = c; rb.Consistency = c }
+			default:
+				diff = fmt.Sprintf("decoded to %T", d.msg)
+			}
+			ov.FieldChecks++
+			if diff != "" {
+				w.res.report("decode", r, "", 0, stage, x[:64], "extracted fields differ from the reference codec: "+diff, nil)
+				continue
+			}
+			out, err, p := encodeBody(codecs.CustomRawCodec, h, d.body)
+			ov.Reencodes++
+			if p != "" || err != nil || !bytes.Equal(out, x) {
+				w.res.report("reencode", r, "", 0, "re-encode", x[:64], fmt.Sprintf("re-encoding does not reproduce the body (panic %q, error %v, lengths %d/%d)", p, err, len(out), len(x)), nil)
+				continue
+			}
+			// what the consistency override does: another consistency, everything else as it was
+			setCons(primitive.ConsistencyLevelOne)
+			out, err, p = encodeBody(codecs.CustomRawCodec, h, d.body)
+			buf.Reset()
+			_ = ref.EncodeBody(h, &frame.Body{Message: msgs[op]}, &buf)
+			if p != "" || err != nil || !bytes.Equal(out, buf.Bytes()) {
+				w.res.report("reencode", r, "", 0, "re-encode with another consistency", x[:64], fmt.Sprintf("differs from the reference encoding of the same message (panic %q, error %v, lengths %d/%d)", p, err, len(out), buf.Len()), nil)
+			}
+			setCons(primitive.ConsistencyLevelLocalQuorum)
+			_ = v
+		}
+	}
+}
+
 func (w *worker) randomInputs(op, ver string, n int, salt int64) {
 	r := &row{Op: op, Ver: ver, Mal: "random-bytes", Cls: "open"}
 	h := header(r)
@@ -1530,6 +1635,12 @@ func main() {
 	}
 	close(jc)
 	wg.Wait()
+
+	// value counts at the boundaries of their 16-bit field (the specification's value lists are short; a count is an
+	// unsigned [short]): instances of the valid rows with N one-byte values, judged by the reference codec
+	for _, ver := range []string{"v3", "v4", "v5", "DSEv1", "DSEv2"} {
+		workers[0].countBoundaries(ver)
+	}
 
 	// a few inputs that announce a huge [long string]: run alone, timed
 	hugeInputs := []struct {
